@@ -84,11 +84,22 @@ func VH_C05_AFGetters() {
 	vrt.Reach("end")
 }
 
+// c05presence makes the five presence flags concrete (quick: 2 combinations, thorough: 8);
+// adaptation_field_length, both length bytes and every other byte stay symbolic and unconstrained
+func c05presence(p *Packet) {
+	if vrt.Tier() == 1 {
+		p[5] = p[5]&0xE0 | []byte{0x00, 0x10, 0x04, 0x02, 0x01, 0x03, 0x1F, 0x0A}[vrt.Choose("presence", 0, 7)]
+		return
+	}
+	p[5] = p[5]&0xE0 | []byte{0x00, 0x1F}[vrt.Choose("presence", 0, 1)]
+}
+
 func VH_C05_AFSetters() {
 	vrt.SetUnwind(400, true)
 	op := vrt.Choose("op", 0, 12)
 	p := c05any("p")
-	v := vrt.Bool("v")
+	c05presence(&p)
+	v := vrt.Choose("v", 0, 1) == 1
 	af, err := p.AdaptationField()
 	if err == nil && af != nil {
 		switch op {
@@ -131,17 +142,68 @@ func VH_C05_PacketModifiers() {
 	vrt.SetUnwind(400, true)
 	op := vrt.Choose("op", 0, 2)
 	p := c05any("p")
+	c05presence(&p)
+	// adaptation_field_control and adaptation_field_length from a boundary set (incl. values that
+	// overrun the packet); the length bytes of the optional fields and all other bytes symbolic
+	if vrt.Tier() == 0 {
+		p[3] = p[3]&0xCF | []byte{0x10, 0x30}[vrt.Choose("afc", 0, 1)]
+		p[4] = []byte{0, 20, 184, 255}[vrt.Choose("afLength", 0, 3)]
+	} else {
+		p[3] = p[3]&0xCF | byte(vrt.Choose("afc", 0, 3))<<4
+		p[4] = []byte{0, 1, 20, 182, 184, 255, 183}[vrt.Choose("afLength", 0, 6)]
+	}
 	switch op {
 	case 0:
-		n := []int{0, 1, 100, 184, 200}[vrt.Choose("n", 0, 4)]
+		n := []int{0, 100, 200}[vrt.Choose("n", 0, 2)]
 		d := make([]byte, n)
 		vrt.Bytes("d", d)
 		_, _ = p.SetPayload(d)
 	case 1:
-		_ = p.SetAdaptationFieldControl(AdaptationFieldControlOptions(vrt.Byte("afc") & 3))
+		_ = p.SetAdaptationFieldControl(AdaptationFieldControlOptions(vrt.Byte("afc2") & 3))
 	case 2:
 		src := c05any("src")
+		c05presence(&src)
 		_ = p.SetAdaptationField((*AdaptationField)(&src))
+	}
+	vrt.Reach("end")
+}
+
+// stream-level entry points of package packet on arbitrary bytes
+func VH_C05_Streams() {
+	vrt.SetUnwind(600, true)
+	op := vrt.Choose("op", 0, 2)
+	switch op {
+	case 0: // sync search on any short stream (longer ones: C16)
+		n := vrt.Choose("len", 0, 8)
+		s := make([]byte, n)
+		vrt.Bytes("s", s)
+		_, _ = Sync(&c16rd{s: s})
+		_, _ = IsSynced(&c16rd{s: s})
+	case 1: // accumulator with arbitrary packets and a predicate that never completes
+		acc := NewAccumulator(func(b []byte) (bool, error) { return false, nil })
+		for i := 0; i < 2; i++ {
+			// header bits symbolic, adaptation_field_control / length from a boundary set, rest stuffing
+			var p Packet
+			vrt.Bytes("pkt", p[:4])
+			p[3] = p[3]&0xCF | byte(vrt.Choose("afc", 0, 3))<<4
+			p[4] = []byte{0, 1, 183, 184, 255}[vrt.Choose("afLength", 0, 4)]
+			p[5] = vrt.Byte("flags")
+			for j := 6; j < 188; j++ {
+				p[j] = 0xFF
+			}
+			orig := p
+			_, _ = acc.WritePacket(&p)
+			vrt.Assert(p == orig, "WritePacket never modifies the packet")
+			_ = acc.Bytes()
+			_ = acc.Packets()
+		}
+		acc.Reset()
+	case 2: // writer adapters with arbitrary lengths
+		n := []int{0, 1, 187, 188, 189, 376}[vrt.Choose("len", 0, 5)]
+		d := make([]byte, n)
+		vrt.Bytes("d", d)
+		rec := &c18rec{failAt: -1}
+		_, _ = IOWriter(rec).Write(d)
 	}
 	vrt.Reach("end")
 }
